@@ -125,7 +125,7 @@ def _pre(ctx):
     if not num(off) or mode not in RMODES:
         REC.skip(mon, "outside-domain-args")
         return SKIP
-    if not snap.wellformed_tier_snap(s):
+    if not snap.wellformed_times(s):
         REC.skip(mon, "ill-formed-receiver")
         return SKIP
     return (mon, s, off, mode)
@@ -153,13 +153,13 @@ def _post(ctx):
 
 
 def _tg_valid(s):
-    return s["tiers"] and all(snap.wellformed_tier_snap(t) and t["min"] == s["min"] and t["max"] == s["max"] for t in s["tiers"]) and s["min"] is not None and s["min"] >= 0
+    return s["tiers"] and all(snap.wellformed_times(t) and t["min"] == s["min"] and t["max"] == s["max"] for t in s["tiers"]) and s["min"] is not None and s["min"] >= 0
 
 
 def _tg_wellformed(s):
     """tiers well-formed and inside the textgrid's span (not necessarily equal to it)"""
     return bool(s["tiers"]) and s["min"] is not None and s["min"] >= 0 and all(
-        snap.wellformed_tier_snap(t) and t["min"] >= s["min"] and t["max"] <= s["max"] for t in s["tiers"])
+        snap.wellformed_times(t) and t["min"] >= s["min"] and t["max"] <= s["max"] for t in s["tiers"])
 
 
 def _tg_pre(ctx):
@@ -212,6 +212,13 @@ def _tg_post(ctx):
     if r["keys"] != s["keys"] or [t["name"] for t in r["tiers"]] != s["keys"]:
         REC.violation(PROP, mon, "Textgrid.editTimestamps", case, "tier names/order %r, expected %r" % (r["keys"], s["keys"]), sig, mech)
         return
+    # every tier that has entries is a moved copy - whatever the offset, also 0: were it the receiver's own tier object, the next
+    # in-place edit of the result would move an entry of the receiver that the receiver never had (entry-less tiers are known to be
+    # handed over as they are, D11)
+    shared = [n for n in s["keys"] if len(ctx.self_.getTier(n).entries) and ctx.result.getTier(n) is ctx.self_.getTier(n)]
+    if shared:
+        REC.violation(PROP, mon, "Textgrid.editTimestamps", case, "the returned textgrid holds the receiver's own tier object(s) %r (offset %r): nothing was moved into a copy" % (shared, off), sig, dict(mech, shared_tier_object=True))
+        return
     his, los = [M.F(s["max"])], [M.F(s["min"])]
     for ts in s["tiers"]:
         exp, lo, hi, _ = M.shift(ts["t"], ents_of(ts), ts["min"], ts["max"], off)
@@ -239,7 +246,7 @@ def _app_pre(ctx):
     if not (snap.is_tier(a) and snap.is_tier(b)):
         return SKIP
     sa, sb = snap.tier_snap(a), snap.tier_snap(b)
-    if not (snap.wellformed_tier_snap(sa) and snap.wellformed_tier_snap(sb)) or sa["min"] < 0 or sb["min"] < 0:
+    if not (snap.wellformed_times(sa) and snap.wellformed_times(sb)) or sa["min"] < 0 or sb["min"] < 0:
         REC.skip("append.tier", "ill-formed-operand")
         return SKIP
     return (sa, sb)
@@ -517,6 +524,8 @@ def _workload(tier, rng, shard, nshards):
         r = rng.random()
         off = rng.choice(OFFSETS) if r < 0.5 else rng.uniform(-5, 5)
         call(A.editTimestamps, off, rng.choice(RMODES))
+        if rng.random() < 0.1:
+            call(A.editTimestamps, rng.choice([0, 0.0, -0.0]), rng.choice(RMODES))  # a shift by nothing is a shift
 
 
 def replay(v, work):
